@@ -13,13 +13,15 @@ use crate::json::J;
 use crate::model::*;
 use crate::rng::Rng;
 
-pub const RULE: &str = "case = (DNA matrix, sequence, threshold, block size, dispatcher arm forced through the hook). Matrices in both wildcard regimes (-inf wildcard as the library's conversions give, finite/zero wildcard as ScoringMatrix::new and the Python constructor give), incl. -inf cells, small integers (exact f32 sums: thresholds exactly at a score are judged strictly), few-valued and strongly conserved motifs; L emphasises L<M, L=0, L=M and row counts within M-1 of a multiple of the block size; block sizes {1,2,3,5,8,16,31,32,33,64,255,256,257,R-1,R,R+1,R+M-1,10^6}; thresholds above the maximum, exactly at a position's score, between neighbouring scores, min_score(), min_score()-1, -1e30, -inf, 0. The scanner is iterated to exhaustion (bounded by L+2 calls) and the yielded multiset is compared with the f64 model {i in [0,L-M] : score(i) >= t} (positions within the f32 summation bound of t are don't-care). Non-trivial = at least one hit expected; distinct = distinct (matrix, sequence, t, block size, arm).";
+pub const RULE: &str = "case = (DNA matrix, sequence, threshold, block size, dispatcher arm forced through the hook). Matrices in both wildcard regimes (-inf wildcard as the library's conversions give, finite/zero wildcard as ScoringMatrix::new and the Python constructor give), incl. -inf cells, small integers (exact f32 sums: thresholds exactly at a score are judged strictly), few-valued and strongly conserved motifs; L emphasises L<M, L=0, L=M and row counts within M-1 of a multiple of the block size; block sizes {1,2,3,5,8,16,31,32,33,64,255,256,257,R-1,R,R+1,R+M-1,10^6}; thresholds above the maximum, exactly at a position's score, between neighbouring scores, min_score(), min_score()-1, -1e30, -inf, 0. The scanner is iterated to exhaustion (bounded by L+2 calls) and the yielded multiset is compared with the f64 model {i in [0,L-M] : score(i) >= t} (positions within the f32 summation bound of t are don't-care). In addition every case with L >= M drives one reconfiguration history: next() calls interleaved with the public setters threshold() and block_size(), then next() until None; the verif-hooks row log (row ranges handed to the dispatched 8-bit kernel) tells which rows were scored under which threshold, and the yielded multiset must be exactly what those block scans find (block-size changes must be invisible; every position meeting the largest threshold ever set must be yielded). Non-trivial = at least one hit expected; distinct = distinct (matrix, sequence, t, block size, arm).";
 
 pub const REQUIRED: &[&str] = &[
     "arm.dispatch[generic]", "arm.dispatch[sse2]", "arm.dispatch[avx2]", "arm.dispatch[auto]", "class.hits>0",
     "class.hits=0", "class.L<M", "class.L=0", "class.L=M", "class.blocks>1", "class.block_boundary_in_wrap_rows",
     "class.finite_wildcard", "class.threshold<=min_score", "class.threshold=-inf", "class.threshold_at_a_score",
     "class.all_positions_hit", "dispatch_forced.generic", "dispatch_forced.sse2", "dispatch_forced.avx2",
+    "class.history", "class.history.threshold_lowered", "class.history.threshold_raised",
+    "class.history.block_size_changed_after_blocks_scored", "class.history.hits_yielded",
 ];
 
 pub struct ScanInput {
@@ -266,6 +268,11 @@ fn scan_case(case: u64, rng: &mut Rng, rep: &mut Report) {
         let b = if run_i == 0 && rng.chance(0.5) { b_hint } else { pick_block(rng, inp.r_rows, m) };
         let t = pick_threshold(rng, &inp, rep);
         one_scan(case, rep, &inp, arm, t, b);
+    }
+    // reconfiguration history: setters called between next() calls (see scanhist.rs)
+    if inp.l >= inp.m {
+        let arm = DISP_ARMS[((case as usize) + 3) % 4];
+        crate::scanhist::history_case(case, rng, rep, &inp, arm, crate::scanhist::Finish::Exhaust, "c02", None);
     }
 }
 
